@@ -398,4 +398,189 @@ Proof.
   unfold pend in Hrest. rewrite Hin, Hfl, Hu in Hrest. cbn in Hrest. injection Hrest as Ha Hd. subst drest. rewrite !app_nil_r in HSD. auto.
 Qed.
 
+
+(* ------------------------------------------------------------------ documents *)
+Lemma Docs_body d0 dc dm os o (q q' : pos) :
+  p_d0 q = d0 -> p_dc q = dc -> p_d0 q' = d0 -> p_dc q' = dc ++ dm ->
+  Docs q os -> final_events o = doc_events dm -> stops o = [] -> no_raise o = true ->
+  incl (doc_events dm) (doc_events SD) -> Docs q' (os ++ o).
+Proof.
+  intros E1 E2 E3 E4 (D1 & D2 & D3 & D4) F1 F2 F3 Hi. unfold Docs. rewrite E1, E2 in *. rewrite E3, E4.
+  rewrite final_events_app, stops_app, no_raise_app, F1, F2, F3, D4, app_nil_r. repeat split; try assumption.
+  - apply incl_app; assumption.
+  - rewrite app_assoc, doc_events_app. apply incl_app; [apply incl_appl; exact D2 | apply incl_appr; apply incl_refl].
+Qed.
+
+Lemma Docs_head d0 dc dm os o (q q' : pos) :
+  p_d0 q = d0 -> p_dc q = dc -> p_d0 q' = d0 ++ dc ++ dm -> p_dc q' = [] -> doc_stops dc = [] ->
+  Docs q os -> final_events o = doc_events dm -> stops o = doc_stops dm -> no_raise o = true ->
+  incl (doc_events dm) (doc_events SD) -> Docs q' (os ++ o).
+Proof.
+  intros E1 E2 E3 E4 Hs (D1 & D2 & D3 & D4) F1 F2 F3 Hi. unfold Docs. rewrite E1, E2 in *. rewrite E3, E4.
+  rewrite final_events_app, stops_app, no_raise_app, F1, F2, F3, D3, D4, !app_nil_r. repeat split; try assumption.
+  - apply incl_app; assumption.
+  - rewrite app_assoc, doc_events_app. apply incl_app; [apply incl_appl; exact D2 | apply incl_appr; apply incl_refl].
+  - rewrite !doc_stops_app, Hs. reflexivity.
+Qed.
+
+Lemma Docs_rewind os (q q' : pos) : p_d0 q' = p_d0 q -> p_dc q' = [] -> Docs q os -> Docs q' os.
+Proof.
+  intros E1 E2 (D1 & D2 & D3 & D4). unfold Docs. rewrite E1, E2, app_nil_r. repeat split; try assumption.
+  intros x Hx. apply D2. rewrite doc_events_app. apply in_or_app. left. exact Hx.
+Qed.
+
+(* the observations of a task step that processed one message *)
+Definition po_ok (po : list obs) : Prop := po = [] \/ exists i, po = [OPlanIn pid (Send i)].
+
+Lemma out_done po m o3 v' : po_ok po -> forallb devdoc o3 = true ->
+  let o := ((([] ++ po) ++ [OMsg m] ++ o3 ++ [OResp (RVal v')]) ++ []) ++ [OTask WSleep0] in
+  final_events o = final_events o3 /\ stops o = stops o3 /\ no_raise o = true /\
+  (forall cur, reads_ok rdm cur o = true -> forall d z, v' = VReading d z -> z = rdm m).
+Proof.
+  intros Hpo Hq. cbv zeta.
+  assert (Hnr : no_raise o3 = true) by (apply devdoc_no_raise; exact Hq).
+  rewrite !final_events_app, !stops_app, !no_raise_app, Hnr.
+  destruct Hpo as [-> | [i ->]]; cbn; rewrite !app_nil_r.
+  all: repeat split.
+  all: intros cur Hr d z ->; cbn in Hr.
+  all: rewrite <- !app_assoc, reads_ok_app, (devdoc_last_msg _ Hq) in Hr; apply andb_true_iff in Hr; destruct Hr as [_ Hr];
+       cbn in Hr; apply andb_true_iff in Hr; destruct Hr as [Hr _]; apply Z.eqb_eq; exact Hr.
+Qed.
+
+Lemma out_susp po m o3 : po_ok po -> forallb devdoc o3 = true ->
+  let o := ([] ++ po) ++ [OMsg m] ++ o3 ++ [OTask WFuture] in
+  final_events o = final_events o3 /\ stops o = stops o3 /\ no_raise o = true /\ (forall cur, last_msg cur o = Some m).
+Proof.
+  intros Hpo Hq. cbv zeta.
+  assert (Hnr : no_raise o3 = true) by (apply devdoc_no_raise; exact Hq).
+  rewrite !final_events_app, !stops_app, !no_raise_app, Hnr.
+  destruct Hpo as [-> | [i ->]]; cbn; rewrite !app_nil_r; repeat split; intros cur;
+    rewrite last_msg_app, (devdoc_last_msg _ Hq); reflexivity.
+Qed.
+
+
+(* ------------------------------------------------------------------ a message is yielded and processed *)
+Lemma astep_susp_docs acur k m acur' dm : astep acur m = Some (acur', dm) -> kmatch acur k m -> dm = [].
+Proof.
+  intros Hst Hk. pose proof (astep_mrun _ _ _ _ _ _ Hst) as Hrun.
+  unfold PointSpec.astep in Hst. rewrite Hrun, Nat.eqb_refl in Hst. cbn [negb] in Hst.
+  destruct k; cbn in Hk; try contradiction.
+  - rewrite Hk in Hst. inv Hst. reflexivity.
+  - destruct Hk as [g Hk]. rewrite Hk in Hst. inv Hst. reflexivity.
+  - destruct Hk as (_ & Hc & Ho & r & nb & Er & Eb). rewrite Hc, Ho, Er, Eb in Hst. destruct nb as [[n o] rd].
+    destruct (mem_nat d o); inv Hst. reflexivity.
+Qed.
+
+Ltac kdestr :=
+  repeat match goal with
+         | H : RE_PointsB.keeps _ _ _ _ |- _ =>
+             let K1 := fresh "K" in let K2 := fresh "K" in let K3 := fresh "K" in let K4 := fresh "K" in
+             let K5 := fresh "K" in let K6 := fresh "K" in let K7 := fresh "K" in let K8 := fresh "K" in
+             let K9 := fresh "K" in let K10 := fresh "K" in let K11 := fresh "K" in let K12 := fresh "K" in
+             let K13 := fresh "K" in
+             destruct H as (K1 & K2 & K3 & K4 & K5 & K6 & K7 & K8 & K9 & K10 & K11 & K12 & K13)
+         end.
+
+Lemma process_msg (s : st) os q v rest vs top tl m f' po fl' u' p' stt :
+  Core q s os -> state s = Running -> pc s = PcSleep0 -> must_cancel s = false -> permit s = true -> p_infl q = [] ->
+  resps s = RVal v :: rest -> rest = map RVal vs -> List.length vs = List.length fl' ->
+  plans s = top :: tl -> map (@FList P) fl' ++ [FUser pid p' stt] = f' :: tl ->
+  frame_resume top (Send v) = (Yielded m f', po) -> po_ok po ->
+  pend q = m :: (List.concat fl' ++ u') -> follows u' p' -> forallb (forallb bodym) fl' = true ->
+  (bodym m = true \/ (is_head (mcmd m) = true /\ p_fl q = [] /\ fl' = [] /\ p_u q = m :: u')) ->
+  exists s' o, task_step s = (s', o) /\ (reads_ok rdm (last_msg None os) o = true -> Inv s' (os ++ o)).
+Proof.
+  intros (HP & HLk & HD) Hst Hpc Hmc Hpm Hin Hrs Hrest Hlen Hpl Hfr' Hfr Hpo Hpe Hfo Hfb Hkind.
+  destruct HLk as (L1 & L2 & L3 & L4 & L5 & L6 & L7 & L8 & L9 & L10).
+  rewrite Hin, app_nil_r in L1.
+  set (sA := RE.replace_top P D (RE.set_resps P D (RE.set_must_cancel P D s false) rest) f').
+  assert (HlenT : List.length rest = List.length tl).
+  { apply (f_equal (@List.length _)) in Hfr'. rewrite app_length, map_length in Hfr'. cbn in Hfr'.
+    rewrite Hrest, map_length. lia. }
+  assert (HcA : cache sA = Some (p_c q)) by (subst sA; simp_st; exact L1).
+  assert (HrA : rewindable sA = true) by (subst sA; simp_st; exact L8).
+  destruct (pre_exec_spec P D sA m (p_c q) HcA HrA) as (KB & BB & UB & CB).
+  assert (HbA : bundlers sA = bundlers s) by (subst sA; reflexivity).
+  assert (HuA : uid_supply sA = uid_supply s) by (subst sA; reflexivity).
+  assert (Hcl : in_class m = true).
+  { unfold in_class. destruct Hkind as [Hb | (Hh & _)]; [rewrite Hb; apply orb_true_r | rewrite Hh; reflexivity]. }
+  pose proof (pos_facts q HP) as (W0 & Wc & We & Hrr & Hn & Hds & Hfresh & _).
+  destruct Hkind as [Hbm | (Hh & Hfl & Hfl' & Hu)].
+  - (* a body message *)
+    destruct (PosOK_body q fl' u' p' stt m HP Hin Hpe Hbm Hfo Hfb) as (acur' & dm & Hstep & Hrel & Hincl & HP1 & HP2).
+    edestruct exec_body with (s := pre_exec P D sA m) (m := m) (a0 := p_a0 q) (acur := p_acur q) (aend := p_aend q)
+                             (acur' := acur') (dm := dm) as
+        (s3 & cr & o3 & Hex & K3 & C3 & U3 & Q3 & F3 & S3 & Hcr); try eassumption.
+    { rewrite BB, HbA. exact L4. }
+    destruct (astep_body _ _ _ _ _ _ Hbm Hstep) as (N1 & _ & _ & _).
+    rewrite (body_cacheable _ Hbm) in CB.
+    destruct cr as [[v'|e]|k]; [| contradiction |].
+    + (* the command completed *)
+      eexists. eexists. split.
+      { eapply task_msg_done; try eassumption. eapply keeps_trans; eassumption. }
+      intros Hreads.
+      destruct (out_done po m o3 v' Hpo Q3) as (O1 & O2 & O3 & O4).
+      specialize (Hcr (O4 _ Hreads)).
+      kdestr. subst sA. simp_st. rewrite Hpl in *. cbn [List.tl] in *.
+      eapply I_rs with (q := mkpos (p_pre q) (p_c q ++ [m]) [] fl' u' p' stt (p_a0 q) acur' (p_aend q) (p_d0 q) (p_dc q ++ dm));
+        simp_st; try congruence.
+      * split; [exact HP1|]. split.
+        -- unfold Link, mkpos; cbn [p_c p_infl p_fl p_p p_started p_acur p_a0 p_aend]. simp_st. rewrite app_nil_r.
+           repeat split; try congruence.
+        -- eapply Docs_body with (q := q) (dm := dm); try reflexivity; try eassumption.
+           ++ rewrite O1. exact F3.
+           ++ rewrite O2. exact S3.
+      * reflexivity.
+      * exists (v' :: vs). cbn [map List.length]. split; [simp_st; congruence | cbn [p_fl mkpos]; lia].
+    + (* the command waits on a future *)
+      destruct Hcr as (Hkm & Hbs).
+      eexists. eexists. split.
+      { eapply task_msg_susp; try eassumption. }
+      intros _.
+      destruct (out_susp po m o3 Hpo Q3) as (O1 & O2 & O3 & O4).
+      kdestr. subst sA. simp_st. rewrite Hpl in *. cbn [List.tl] in *.
+      eapply I_rc with (q := mkpos (p_pre q) (p_c q) [m] fl' u' p' stt (p_a0 q) (p_acur q) (p_aend q) (p_d0 q) (p_dc q)) (k := k) (m := m);
+        simp_st; try congruence.
+      * split; [exact HP2|]. split.
+        -- unfold Link, mkpos; cbn [p_c p_infl p_fl p_p p_started p_acur p_a0 p_aend]. simp_st.
+           repeat split; try congruence.
+        -- eapply Docs_body with (q := q) (dm := []); try reflexivity; try eassumption.
+           ++ cbn [mkpos p_dc]. rewrite app_nil_r. reflexivity.
+           ++ rewrite O1, F3, (astep_susp_docs _ _ _ _ _ Hstep Hkm). reflexivity.
+           ++ rewrite O2. exact S3.
+           ++ intros x [].
+      * reflexivity.
+      * exact Hkm.
+      * exists vs. split; [simp_st; congruence | cbn [p_fl mkpos]; lia].
+      * rewrite last_msg_app. apply O4.
+  - (* a head message *)
+    subst fl'. cbn [List.concat app map] in *.
+    destruct (PosOK_head q u' p' stt m HP Hin Hfl Hu Hh Hfo) as (Hae & acur' & dm & aend' & Hstep & Hrel & Hincl & Hopen & HP3).
+    rewrite Hae in L4.
+    edestruct exec_head with (s := pre_exec P D sA m) (m := m) (a0 := p_a0 q) (acur := p_acur q) (acur' := acur')
+                             (aend' := aend') (dm := dm) (cc := if cacheable (mcmd m) then p_c q ++ [m] else p_c q) as
+        (s3 & o3 & v' & Hex & K3 & C3 & U3 & Q3 & F3 & S3 & HBR3); try eassumption.
+    { rewrite BB, HbA. exact L4. }
+    { rewrite UB, HuA. exact L3. }
+    { destruct KB as (_ & _ & _ & _ & _ & _ & _ & _ & _ & KB10 & _). rewrite KB10. subst sA. simp_st. exact L7. }
+    { destruct KB as (_ & _ & _ & _ & _ & _ & _ & _ & _ & _ & _ & KB12 & _). rewrite KB12. subst sA. simp_st. exact L9. }
+    eexists. eexists. split.
+    { eapply task_msg_done; try eassumption. eapply keeps_trans; eassumption. }
+    intros Hreads.
+    destruct (out_done po m o3 v' Hpo Q3) as (O1 & O2 & O3 & O4).
+    assert (Hc3 : cache s3 = Some []).
+    { rewrite C3. destruct (mcmd m) eqn:Ecmd; try reflexivity. rewrite CB, open_run_cacheable. rewrite (Hopen eq_refl). reflexivity. }
+    kdestr. subst sA. simp_st. rewrite Hpl in *. cbn [List.tl] in *.
+    eapply I_rs with (q := mkpos (p_pre q ++ p_c q ++ [m]) [] [] [] u' p' stt acur' acur' aend' (p_d0 q ++ p_dc q ++ dm) []);
+      simp_st; try congruence.
+    + split; [exact HP3|]. split.
+      * unfold Link, mkpos; cbn [p_c p_infl p_fl p_p p_started p_acur p_a0 p_aend]. simp_st.
+        cbn [map app] in *. repeat split; try congruence.
+      * eapply Docs_head with (q := q) (dm := dm); try reflexivity; try eassumption.
+        -- rewrite O1. exact F3.
+        -- rewrite O2. exact S3.
+    + reflexivity.
+    + exists (v' :: vs). cbn [map List.length]. split; [simp_st; congruence | cbn [p_fl mkpos List.length] in *; lia].
+Qed.
+
 End D.
